@@ -104,8 +104,24 @@ def run(shard, rec):
             vals = [r.choice([1.0, 2.0, 0.3, 0.7, 2.5, -1.0, 3.0, 0.0, 1.5]) for _ in range(6)]
             xs = [secfxp(v) for v in vals]
             out = []
-            which = r.randrange(7)
-            if which == 0:
+            which = r.randrange(10)
+            if which == 7:
+                # lists with mixed integrality through input(), _reshare() and prod()
+                ys = mpc.input(xs[:3], senders=0)
+                zs = mpc._reshare(xs[3:6])
+                out += [a * a for a in ys] + [a * xs[0] for a in zs] + [mpc.prod(xs[:3]), mpc.prod(xs[1:5]), mpc.prod([xs[0], xs[2], xs[4], xs[5]])]
+            elif which == 8:
+                # a condition reused after a list-form selection / swap keeps its value
+                c = xs[0] < xs[1]
+                b = mpc.if_swap(c, xs[0:2], xs[2:4])
+                a = mpc.if_else(c, xs[2:4], xs[4:6])
+                out += [c * xs[2], c * xs[3], mpc.if_swap(c, xs[4:6], xs[0:2])[0][0], c + c, b[0][0] + a[0]]
+            elif which == 9:
+                d = mpc.random.random_derangement(secfxp, xs[:4]) if hasattr(mpc, 'random') else xs[:4]
+                out += [a * a for a in d]
+                mpc.random.shuffle(secfxp, xs)
+                out += [xs[0] * xs[1], xs[2] * xs[3]]
+            elif which == 0:
                 recs = [[xs[0], xs[1]], [xs[2], xs[3]], [xs[4], xs[5]]]
                 s = mpc.sorted(recs, key=lambda a: a[0])
                 out += [a * a for row in s for a in row]
